@@ -9,6 +9,10 @@ import (
 // HarnessOpt selects variants of the Go side.
 type HarnessOpt struct {
 	Bounds bool // define _onBounds
+	// NamedLists declares `type Nodes []*Node` / `type Toks []Token` and uses
+	// them as the parameter types of list-valued terms (assignable from, but
+	// not identical to, the []*Node / []Token the sugar produces).
+	NamedLists bool
 }
 
 // goType returns the Go parameter type of a term in the parser-only harness.
@@ -78,6 +82,9 @@ func (g *Grammar) Harness(opt HarnessOpt) (harness, internals, stub string) {
 	}
 	sb.WriteString("type Token = hc.Token\ntype Node = hc.Node\n\n")
 	sb.WriteString("type P struct {\n\tlox\n\tH *hc.H\n}\n\n")
+	if opt.NamedLists {
+		sb.WriteString("type Nodes []*Node\ntype Toks []Token\n\n")
+	}
 	for _, m := range g.Methods(opt) {
 		r := g.Rules[m.Rule]
 		p := r.Prods[m.Prods[0]]
@@ -86,6 +93,12 @@ func (g *Grammar) Harness(opt HarnessOpt) (harness, internals, stub string) {
 		for i, t := range p.Terms {
 			ty := g.goType(t)
 			params[i] = fmt.Sprintf("a%d %s", i, ty)
+			if opt.NamedLists && (ty == "[]*Node" || ty == "[]Token") {
+				named := map[string]string{"[]*Node": "Nodes", "[]Token": "Toks"}[ty]
+				params[i] = fmt.Sprintf("a%d %s", i, named)
+				args[i] = fmt.Sprintf("%s(a%d)", ty, i)
+				continue
+			}
 			switch ty {
 			case "Error":
 				args[i] = fmt.Sprintf("hc.Err{Tok: a%d.Token, Exp: a%d.Expected}", i, i)
